@@ -60,6 +60,12 @@ pub enum Op {
     Encode { r: u8, fmt: Fmt, io: IoPlan, enc_fail_at: u8 },
     Decode { r: u8, fmt: Fmt, mutation: StreamMut, io: IoPlan, de_fail_at: u8, place: u8 },
     VecConvert { r: u8, n: u8, form: u8, script: Vec<VAct>, spare: u8 },
+    /// clone (or clone_from onto a fresh twin) with a panic injected at the clone of every field in turn
+    CloneSweep { r: u8, from: bool },
+    /// decode the record's own encoding with every position of one fault kind in turn:
+    /// 0 = truncated after every byte, 1 = n-th element decode fails, 2 = reader error at every byte,
+    /// 3 = every bit flipped (every `stride`-th bit for long streams)
+    DecodeSweep { r: u8, fmt: Fmt, kind: u8 },
 }
 
 impl Op {
@@ -80,6 +86,9 @@ impl Op {
             Op::Encode { .. } => "encode",
             Op::Decode { .. } => "decode",
             Op::VecConvert { .. } => "vec_convert",
+            Op::CloneSweep { from: false, .. } => "clone",
+            Op::CloneSweep { from: true, .. } => "clone_from",
+            Op::DecodeSweep { .. } => "decode",
         }
     }
 }
@@ -943,6 +952,143 @@ impl<'a, R: Rec> Engine<'a, R> {
         self.probe(if panicked { "clone_from_panicked" } else { "clone_from_ok" });
     }
 
+    /// fault enumeration: a panic at the clone of every field j of the record, one after the other
+    fn do_clone_sweep(&mut self, r: u8, from: bool) {
+        if !self.meta.has_clone || !self.cfg.faults {
+            return self.skip();
+        }
+        let Some(i) = self.idx(r) else { return self.skip() };
+        if self.cfg.init_skipped && self.has_uninit(i) {
+            return self.skip();
+        }
+        let model = alloc::harness(|| self.world[i].model.clone());
+        let points = self.clone_points(&model);
+        alloc::harness(|| drop(model));
+        if points == 0 {
+            return self.skip();
+        }
+        if self.world.len() >= MAX_WORLD {
+            // the sweep adds a record: never evict the one under test
+            return self.skip();
+        }
+        self.probe("clone_sweep_every_field");
+        let points = if self.cfg.init_skipped { points.min(3) } else { points };
+        if from {
+            // a twin of the same variant to assign onto (made by a fault-free clone)
+            self.do_clone(i as u8, 0, 1);
+            if self.world.len() < 2 {
+                return;
+            }
+            let twin = self.world.len() - 1;
+            let src = if i < self.world.len() - 1 { i } else { return };
+            for j in 1..=points {
+                if !self.out.violations.is_empty() {
+                    break;
+                }
+                // indices are taken modulo the candidates of the same variant: address the pair explicitly
+                self.clone_from_pair(twin, src, j);
+                self.conservation(&["C16"]);
+            }
+        } else {
+            for j in 1..=points {
+                if !self.out.violations.is_empty() {
+                    break;
+                }
+                let before = self.world.len();
+                self.do_clone(i as u8, j as u8, 0);
+                if self.world.len() > before {
+                    let last = self.world.len() - 1;
+                    self.do_drop_index(last);
+                }
+                self.conservation(&["C16"]);
+            }
+        }
+    }
+
+    /// clone_from of world[src] onto world[dst] with the j-th clone panicking (explicit indices)
+    fn clone_from_pair(&mut self, dst: usize, src: usize, j: usize) {
+        // `do_clone_from` picks the target among the records of the source's variant other than the source
+        let sv = self.world[src].model.variant;
+        let candidates: Vec<usize> = alloc::harness(|| (0..self.world.len()).filter(|&k| k != src && self.world[k].model.variant == sv).collect());
+        let pos = candidates.iter().position(|&k| k == dst);
+        let n = candidates.len();
+        alloc::harness(|| drop(candidates));
+        if let Some(pos) = pos {
+            let _ = n;
+            self.do_clone_from(pos as u8, src as u8, j as u8);
+        }
+    }
+
+    /// fault enumeration over one stream: every truncation point / failing element / failing byte / bit
+    fn do_decode_sweep(&mut self, r: u8, fmt: Fmt, kind: u8) {
+        if !self.meta.has_serde || !self.cfg.faults {
+            return self.skip();
+        }
+        let Some(i) = self.idx(r) else { return self.skip() };
+        if self.has_uninit(i) {
+            return self.skip();
+        }
+        let len: Option<usize> = alloc::harness(|| {
+            let mut w = FaultyWriter::new(IoPlan::clean());
+            tok::plan_reset();
+            self.world[i].slot.get().encode_model(fmt, &mut w).ok().map(|_| w.buf.len())
+        });
+        let Some(len) = len else { return self.skip() };
+        if self.world.len() >= MAX_WORLD {
+            return self.skip();
+        }
+        let nfields = self.meta.variants[self.world[i].model.variant].fields.len();
+        let positions: Vec<(StreamMut, IoPlan, u8)> = alloc::harness(|| match kind % 4 {
+            0 => (0..=len.min(400)).map(|k| (StreamMut::Truncate(k as u16), IoPlan::clean(), 0)).collect(),
+            1 => (1..=nfields + 1).map(|j| (StreamMut::None, IoPlan::clean(), j as u8)).collect(),
+            2 => (0..=len.min(400)).map(|k| (StreamMut::None, IoPlan { chunk: 3, eintr_every: 0, err_at: k as u16, eof_at: NEVER }, 0)).collect(),
+            _ => {
+                let bits = 8 * len;
+                let stride = (bits / 256).max(1);
+                (0..bits).step_by(stride).map(|b| (StreamMut::BitFlip(b as u16), IoPlan::clean(), 0)).collect()
+            }
+        });
+        // complete for streams up to 160 positions, evenly thinned beyond; the interpreter arm (slow) takes 6
+        let max_pos = if self.cfg.init_skipped { 6 } else { 160 };
+        let positions: Vec<(StreamMut, IoPlan, u8)> = alloc::harness(|| {
+            if positions.len() <= max_pos {
+                positions
+            } else {
+                let n = positions.len();
+                (0..max_pos).map(|k| positions[k * (n - 1) / (max_pos - 1)]).collect()
+            }
+        });
+        self.probe(match kind % 4 {
+            0 => "decode_sweep_every_truncation",
+            1 => "decode_sweep_every_element",
+            2 => "decode_sweep_every_reader_error",
+            _ => "decode_sweep_every_bit",
+        });
+        for (mutation, io, fail) in positions.iter() {
+            if !self.out.violations.is_empty() {
+                break;
+            }
+            if let StreamMut::Truncate(k) = mutation {
+                // `Truncate(k)` is taken modulo len + 1: keep the position exact
+                if *k as usize > len {
+                    continue;
+                }
+            }
+            let Some(i) = self.idx(r) else { break };
+            let before = self.world.len();
+            self.do_decode(i as u8, fmt, *mutation, *io, *fail, 0);
+            // an accepted stream made a record: it has been verified, drop it again so that the world stays put
+            if self.world.len() > before {
+                let last = self.world.len() - 1;
+                self.do_drop_index(last);
+            } else if self.world.len() == before && before == MAX_WORLD {
+                // push_record evicted the oldest record to make room: nothing to undo
+            }
+            self.conservation(&["C15"]);
+        }
+        alloc::harness(|| drop(positions));
+    }
+
     fn has_uninit(&self, i: usize) -> bool {
         self.world[i].model.fields.iter().any(|f| *f == FState::Uninit)
     }
@@ -1398,6 +1544,14 @@ impl<'a, R: Rec> Engine<'a, R> {
                     self.do_decode(*r, *fmt, *mutation, *io, *de_fail_at, *place)
                 }
                 Op::VecConvert { r, n, form, script, spare } => self.do_vec_convert(*r, *n, *form, script, *spare),
+                Op::CloneSweep { r, from } => {
+                    extra = &["C16"];
+                    self.do_clone_sweep(*r, *from)
+                }
+                Op::DecodeSweep { r, fmt, kind } => {
+                    extra = &["C15"];
+                    self.do_decode_sweep(*r, *fmt, *kind)
+                }
             }
             self.conservation(extra);
             self.drain_hooks();
@@ -1537,16 +1691,16 @@ impl Focus {
             _ => Focus::All,
         }
     }
-    /// weights: new, new_uninit, get, set, mutate, move, convert, chain, unpack, drop, clone, clone_from, encode, decode, vec_convert
-    fn weights(self) -> [usize; 15] {
+    /// weights: new, new_uninit, get, set, mutate, move, convert, chain, unpack, drop, clone, clone_from, encode, decode, vec_convert, clone_sweep, decode_sweep
+    fn weights(self) -> [usize; 17] {
         match self {
-            Focus::C04 => [8, 5, 6, 8, 6, 5, 2, 1, 4, 2, 1, 1, 0, 0, 1],
-            Focus::C05 => [8, 4, 2, 2, 1, 2, 12, 6, 2, 1, 0, 0, 0, 0, 4],
-            Focus::C06 => [8, 3, 1, 5, 1, 2, 6, 3, 4, 4, 3, 3, 1, 2, 4],
-            Focus::C07 => [8, 5, 6, 5, 3, 8, 5, 3, 3, 2, 2, 2, 1, 1, 3],
-            Focus::C15 => [8, 1, 1, 2, 2, 1, 3, 1, 1, 1, 0, 0, 8, 14, 0],
-            Focus::C16 => [8, 2, 1, 3, 3, 2, 3, 1, 1, 2, 10, 10, 0, 0, 0],
-            Focus::All => [8, 3, 3, 4, 3, 3, 5, 2, 3, 3, 3, 3, 3, 4, 3],
+            Focus::C04 => [8, 5, 6, 8, 6, 5, 2, 1, 4, 2, 1, 1, 0, 0, 1, 0, 0],
+            Focus::C05 => [8, 4, 2, 2, 1, 2, 12, 6, 2, 1, 0, 0, 0, 0, 4, 0, 0],
+            Focus::C06 => [8, 3, 1, 5, 1, 2, 6, 3, 4, 4, 3, 3, 1, 2, 4, 1, 1],
+            Focus::C07 => [8, 5, 6, 5, 3, 8, 5, 3, 3, 2, 2, 2, 1, 1, 3, 0, 0],
+            Focus::C15 => [8, 1, 1, 2, 2, 1, 3, 1, 1, 1, 0, 0, 8, 14, 0, 0, 5],
+            Focus::C16 => [8, 2, 1, 3, 3, 2, 3, 1, 1, 2, 10, 10, 0, 0, 0, 5, 0],
+            Focus::All => [8, 3, 3, 4, 3, 3, 5, 2, 3, 3, 3, 3, 3, 4, 3, 1, 1],
         }
     }
 }
@@ -1607,6 +1761,8 @@ pub fn gen_ops(rng: &mut Rng, focus: Focus, faults: bool) -> Vec<Op> {
                 let io_faults = faults && rng.chance(1, 2);
                 Op::Decode { r, fmt: if rng.chance(1, 2) { Fmt::Json } else { Fmt::Bincode }, mutation, io: gen_io(rng, io_faults), de_fail_at: if faults && rng.chance(1, 4) { rng.range(1, 8) as u8 } else { 0 }, place: rng.below(3) as u8 }
             }
+            15 => Op::CloneSweep { r, from: rng.chance(1, 2) },
+            16 => Op::DecodeSweep { r, fmt: if rng.chance(1, 2) { Fmt::Json } else { Fmt::Bincode }, kind: rng.below(4) as u8 },
             _ => {
                 let n = rng.below(7) as u8;
                 let fault_at = if faults && n > 0 && rng.chance(2, 3) { Some(rng.below(n as usize)) } else { None };
